@@ -309,6 +309,8 @@ class G:
                 self.put_translated(c, "constraint_message", lambda: self.text_with_refs("CM"))
         if base not in ("calculate",) and P("p_calc_on_visible", 0.05):
             c["calculation"] = self.calc()
+        if P("p_noapp", 0.0) and self.names:
+            c["bind::jr:noAppErrorString"] = "no app for ${%s}" % self.pick(self.names)
         if P("p_custom_bind", 0.1):
             c["bind::" + self.pick(["jr:foo", "custom", "odk:x", "orx:y"])] = self.text("B") if P("_", 0.5) else self.expr()
         if P("p_custom_instance", 0.08):
@@ -334,7 +336,8 @@ class G:
             opts = ["now()", "today()", "uuid()", "1 + 1", "3 mod 3", "concat('a', 'b')", "if(1 = 1, 'a', 'b')",
                     "string-length('x')", "once(random())"]
             if self.names:
-                opts += ["${%s}" % self.pick(self.names), "${%s} + 1" % self.pick(self.names),
+                opts += ["${%s}" % self.pick(self.names), "${%s} + 1" % self.pick(self.names), "${%s} - 7" % self.pick(self.names),
+                         "${%s} - ${%s}" % (self.pick(self.names), self.pick(self.names)),
                          "concat(${%s}, 'z')" % self.pick(self.names)]
             c["default"] = self.pick(opts)
 
@@ -414,7 +417,8 @@ class G:
         if base in ("select_one", "select_multiple") and lst is not None and lst["name"] in self.search_lists and table_list is None:
             c["appearance"] = self.pick(["search('fruits')", "minimal search('fruits')", "search('fruits', 'matches', 'kind', 'x')"])
             c.pop("choice_filter", None)
-            c.pop("parameters", None)
+            if not (self.P.get("p_search_randomize", 0) and c.get("parameters", "").startswith("randomize=true") and "${" not in c.get("parameters", "")):
+                c.pop("parameters", None)
             if c["type"].endswith("or_other"):
                 c["type"] = tcell
         elif visible and P("p_appearance", 0.15) and table_list is None:
@@ -444,6 +448,8 @@ class G:
                 c["calculation"] = self.calc()
             if base != "calculate" and self.p("_", 0.6):
                 c["label"] = self.text("L")
+            if self.P.get("p_trigger_logic", 0) and self.p("p_trigger_logic"):
+                self.add_logic(c, base, inside_repeat)   # columns to the right of the calculation column
         self.names.append(nm)
         if inside_repeat:
             self.in_repeat_names[nm] = inside_repeat
@@ -529,8 +535,13 @@ class G:
                 c["appearance"] = self.pick(["field-list", "field-list custom"])
             if P("p_group_hint", 0.0):
                 self.put_translated(c, "hint", lambda: self.text_with_refs("GH"), p_lang=False)
+            if P("p_group_media", 0.0) and any(k.split("::")[0] == "label" for k in c):
+                mcol = self.pick(["image", "audio", "video"])
+                self.put_translated(c, mcol, lambda: f"g{self.integer(1, 99)}.{self.pick(['jpg', 'wav', 'mp4'])}")
             if kind == "g" and P("p_table_list", 0.05):
                 c["appearance"] = "table-list"
+                for k in [k for k in c if k.split("::")[0] in ("image", "audio", "video")]:
+                    del c[k]   # a table-list group's label moves to a generated note; media on such a group is not modelled
                 if P("p_group_hint", 0.0):
                     for k in [k for k in c if k.split("::")[0] == "label"]:
                         del c[k]
@@ -612,6 +623,53 @@ class G:
     entities_enabled = False
 
 
+def _all_strings(x):
+    if isinstance(x, str):
+        yield x
+    elif isinstance(x, dict):
+        for v in x.values():
+            yield from _all_strings(v)
+    elif isinstance(x, list):
+        for v in x:
+            yield from _all_strings(v)
+
+
+def reuse_names(form, g, k=2):
+    """Names only have to be unique among siblings (and sections among sections): give some leaf question the name of an element
+    that lives in another section, provided nobody refers to either name with ${...}."""
+    def walk(nodes, parent, out):
+        for n in nodes:
+            out.append((n, parent))
+            if n["k"] in ("g", "r"):
+                walk(n.get("ch", []), n, out)
+        return out
+
+    allnodes = walk(form["nodes"], None, [])
+    blob = "\n".join(_all_strings(form))
+
+    # (a question with a trigger is addressed by name when its setvalue is placed, so its name has to be unique)
+    triggered = {n["c"].get("name") for n, _ in allnodes if "trigger" in n["c"]}
+
+    def free(name):
+        return name is not None and name not in triggered and ("${%s}" % name) not in blob and ("#%s}" % name) not in blob
+
+    for _ in range(k):
+        leaves = [(n, p) for n, p in allnodes if n["k"] == "q" and free(n["c"].get("name")) and not n["c"].get("type", "").endswith("or_other")]
+        donors = [(n, p) for n, p in allnodes if n["k"] != "x" and free(n["c"].get("name"))]
+        if not leaves or not donors:
+            return
+        b, bp = g.pick(leaves)
+        a, ap = g.pick(donors)
+        if a is b or ap is bp:
+            continue
+        sibs = (bp["ch"] if bp is not None else form["nodes"])
+        new = a["c"]["name"]
+        if any(sn["c"].get("name", "").lower() == new.lower() for sn in sibs if sn is not b and sn["k"] != "x"):
+            continue
+        # a section may not share its name with an ancestor-less duplicate section; b is a leaf so that rule is not touched
+        b["c"]["name"] = new
+
+
 def build_form(draw, P, g=None):
     g = g or G(draw, P)
     lang_mode = P.get("langs", "some")
@@ -649,6 +707,8 @@ def build_form(draw, P, g=None):
         args["default_language"] = g.pick(g.langs)
     form["args"] = args
     form["_langs"] = list(g.langs)
+    if P.get("p_reuse_names", 0) and g.p("p_reuse_names"):
+        reuse_names(form, g, g.integer(1, 3))
     return form
 
 
